@@ -88,6 +88,10 @@ func (v *V) Src() string {
 	case 'o':
 		return v.S
 	case '(', '[':
+		if commentFn != nil && v.K == '(' && len(v.L) == 2 && v.L[0].K == 'y' && v.L[0].S == "quote" {
+			// the quote sugar reads as the same form (quote X)
+			return "%" + commentFn() + v.L[1].Src()
+		}
 		op, cl := "(", ")"
 		if v.K == '[' {
 			op, cl = "[", "]"
@@ -276,9 +280,17 @@ func (t *T) Reified() *V {
 
 // Src prints the template as source; sugar selects ~e / ~@e over (unquote e).
 // commentFn, when set, supplies a comment (or "") to write before each element and before the
-// closing bracket of a list or array of a template printed by Src.  Never directly after a
-// reader prefix (^ ~ ~@).
+// closing bracket of a list or array of a template printed by Src, and directly after a reader
+// prefix (^ ~ ~@ and the quote sugar %).
 var commentFn func() string
+
+// afterPrefix: a comment between a reader prefix and its form
+func afterPrefix() string {
+	if commentFn == nil {
+		return ""
+	}
+	return commentFn()
+}
 
 func (t *T) Src(sugar bool) string {
 	switch t.K {
@@ -286,12 +298,12 @@ func (t *T) Src(sugar bool) string {
 		return t.V.Src()
 	case 'U':
 		if sugar {
-			return "~" + t.V.Src()
+			return "~" + afterPrefix() + t.V.Src()
 		}
 		return "(unquote " + t.V.Src() + ")"
 	case 'S':
 		// the long form cannot be typed: "unquote-splicing" lexes as unquote - splicing
-		return "~@" + t.V.Src()
+		return "~@" + afterPrefix() + t.V.Src()
 	case '(', '[':
 		op, cl := "(", ")"
 		if t.K == '[' {
